@@ -186,6 +186,15 @@ func run(d descriptor) (*drive.ScriptOutcome, *built) {
 	return drive.RunScript(c), bt
 }
 
+// runAsIs runs the case against the model of the engine's KNOWN deviations
+// (C10-F1/F2/F3, model.M.AsIs): a run that fails against BPMN but agrees with
+// that model step by step is one of the listed findings; anything else is new.
+func runAsIs(d descriptor) *drive.ScriptOutcome {
+	bt := build(d)
+	c := &drive.ScriptCase{Graph: bt.g, Lang: "expr", Script: d.Script, Perturb: d.Perturb, Drain: true, ModelAsIs: true}
+	return drive.RunScript(c)
+}
+
 // knownMatch: structural predicate AND symptom class.
 func knownMatch(d descriptor, out *drive.ScriptOutcome, bt *built) string {
 	fired := map[string]int{}
@@ -313,8 +322,19 @@ func TestC10Boundary(t *testing.T) {
 		}
 		if rec.Unrestricted() {
 			if k := knownMatch(d, out, bt); k != "" {
-				rec.KnownHit("TestC10Boundary", k, hash)
-				return
+				// structural predicate and symptom class match a listed finding:
+				// it is that finding only if the engine does exactly what the
+				// finding says it does (and nothing else differs)
+				asIs := runAsIs(d)
+				if asIs.Inconcl != "" {
+					rec.Inconclusive("TestC10Boundary", asIs.Inconcl)
+					rt.Fatalf("inconclusive: %s", asIs.Inconcl)
+				}
+				if asIs.Symptom == "" {
+					rec.KnownHit("TestC10Boundary", k, hash)
+					return
+				}
+				out.Detail = fmt.Sprintf("%s | and it is not the listed deviation either (model of C10-F1/F2/F3): %s: %s", out.Detail, asIs.Symptom, asIs.Detail)
 			}
 		}
 		rt.Fatalf("%s", rec.Fail(rec.Failure{Property: prop, Test: "TestC10Boundary", Symptom: out.Symptom, Detail: out.Detail, Descriptor: d,
